@@ -49,7 +49,8 @@ def run_one(patch: str, props):
         r = subprocess.run(["patch", "-p1", "-s", "-i", patch], cwd=root, capture_output=True, text=True)
         if r.returncode != 0:
             return {"inapplicable": True}
-        env = dict(os.environ, J2M_EVIDENCE_DIR=os.path.join(tmp, "ev"))
+        env = dict(os.environ, J2M_EVIDENCE_DIR=os.path.join(tmp, "ev"),
+                   J2M_RULE_CACHE=os.path.join(tempfile.gettempdir(), f"j2m-rulecache-{os.getuid()}"))
         out = {}
         for pid in props:
             p = subprocess.run([sys.executable, os.path.join(VERIF, "check.py"), pid, "--root", root, "--tier", "quick"],
